@@ -391,7 +391,24 @@ func mapKeyLess(a, b reflect.Value) bool {
 			return a.Float() < b.Float()
 		}
 	}
-	return mapKeyText(a) < mapKeyText(b)
+	ta, tb := mapKeyText(a), mapKeyText(b)
+	if ta != tb {
+		return ta < tb
+	}
+	// Distinct keys can print alike (1 and "1", 1 and int64(1)): their types
+	// tell them apart, so that the order does not depend on where the sort began
+	return mapKeyType(a) < mapKeyType(b)
+}
+
+// mapKeyType names the dynamic type of a key.
+func mapKeyType(k reflect.Value) string {
+	if k.Kind() == reflect.Interface && !k.IsNil() {
+		k = k.Elem()
+	}
+	if !k.IsValid() {
+		return ""
+	}
+	return k.Type().String()
 }
 
 // mapKeyText is the printed form a key is ordered by. It is made by the guarded
